@@ -351,6 +351,19 @@ def apply_model(sym, n, f, vals, mut_idx, st):
         return V(("fmtargs", (("txt", vals[0][2]),) if vals[0][0] == "lit" else (("dyn", vals[0]),), ()))
     if p == "std::fmt::format" and len(vals) == 1:
         return V(("format", vals[0]))
+    # std::mem::replace(&mut place, v) / take(&mut place): the old value is returned, the place now holds v / Default
+    if p in ("std::mem::replace", "std::mem::take") and vals and vals[0][0] == "place" and n.get("args"):
+        pl = sym.place_of(n["args"][0], st)
+        if pl is not None and not (len(pl) > 3 and pl[3] is not None):
+            old = None
+            for s2, (k2, v2) in sym.ev(strip_mut(n["args"][0]), st):
+                if k2 == VAL:
+                    old = v2
+            newv = vals[1] if p.endswith("replace") else default_of((n["args"][0].get("ty") or "").replace("&mut ", "", 1))
+            if old is not None:
+                s = sym.write_place(st, pl, newv).eff(("assign", sym.place_term(pl), newv))
+                return [(s, (VAL, old))]
+
     # OnceLock / OnceCell / LazyLock: the cell's value is what the initialiser returns (each rule that relies on this checks that
     # the cell is only ever reached through get_or_init)
     if re.match(r"^std::(sync|cell)::Once(Lock|Cell)(::<[^>]*>)?::get_or_init$", p) and len(vals) == 2 and vals[1][0] in ("closure", "fnref"):
